@@ -172,11 +172,18 @@ def S1.after (σ : S1) (nf nb cl : Nat) (hp : Bool) : S1 :=
   { j := σ.j, lastNot := false, fSize := σ.fSize + nf, fExp := σ.fExp + nb,
     exprSize := σ.exprSize - (if σ.lastNot then 1 else 0) + cl, cv := σ.cv || hp }
 
+theorem run1_rp (fx : Fix) (rest : List T1) (s : S1) (h : 0 ≤ s.j - 1) :
+    run1 fx (.rp :: rest) s =
+      run1 fx rest { s with j := s.j - 1, lastNot := if fx.f13 then false else s.lastNot } := by
+  have : ¬ (s.j - 1 < 0) := by omega
+  simp [run1, this]
+
 mutual
-theorem run1_factor : ∀ (f : Factor) (rest : List T1) (σ : S1), f.NoNotParenNot → σ.fExp = σ.fSize + 1 →
-    (σ.lastNot = true → 1 ≤ σ.exprSize ∧ f.parenNot = false) →
-    run1 (f.toks1 ++ rest) σ = run1 rest (σ.after f.nfeat f.nbin (f.clen σ.lastNot) f.hasParen)
-  | .ident n, rest, σ, _, _, hln => by
+theorem run1_factor (fx : Fix) : ∀ (f : Factor) (rest : List T1) (σ : S1), (fx.f13 = false → f.NoNotParenNot) →
+    σ.fExp = σ.fSize + 1 → 0 ≤ σ.j →
+    (σ.lastNot = true → 1 ≤ σ.exprSize ∧ (fx.f13 = false → f.parenNot = false)) →
+    run1 fx (f.toks1 ++ rest) σ = run1 fx rest (σ.after f.nfeat f.nbin (f.clen σ.lastNot) f.hasParen)
+  | .ident n, rest, σ, _, _, _, hln => by
     simp only [Factor.toks1, List.singleton_append, run1, S1.after, Factor.nfeat, Factor.nbin, Factor.hasParen,
       Factor.clen, Factor.pend, Factor.body]
     congr 1
@@ -185,13 +192,14 @@ theorem run1_factor : ∀ (f : Factor) (rest : List T1) (σ : S1), f.NoNotParenN
     | true =>
       have := (hln hl).1
       simp [cNOT_eq]; omega
-  | .not sp f, rest, σ, hH, hfe, hln => by
-    simp only [Factor.NoNotParenNot] at hH
+  | .not sp f, rest, σ, hH, hfe, hj, hln => by
+    have hH1 : fx.f13 = false → f.NoNotParenNot := fun h => by have := hH h; simp only [Factor.NoNotParenNot] at this; exact this.1
+    have hH2 : fx.f13 = false → f.parenNot = false := fun h => by have := hH h; simp only [Factor.NoNotParenNot] at this; exact this.2
     simp only [Factor.toks1, List.cons_append, run1]
     cases hl : σ.lastNot with
     | false =>
       simp only [Bool.false_eq_true, if_false]
-      rw [run1_factor f rest _ hH.1 (by simpa using hfe) (by intro _; exact ⟨by simp, hH.2⟩)]
+      rw [run1_factor fx f rest _ hH1 (by simpa using hfe) (by simpa using hj) (by intro _; exact ⟨by simp, hH2⟩)]
       simp only [S1.after, Factor.nfeat, Factor.nbin, Factor.hasParen, hl]
       congr 1
       simp only [Factor.clen, Factor.pend, Factor.body]
@@ -199,68 +207,89 @@ theorem run1_factor : ∀ (f : Factor) (rest : List T1) (σ : S1), f.NoNotParenN
     | true =>
       have h1 := (hln hl).1
       simp only [if_true]
-      rw [run1_factor f rest _ hH.1 (by simpa using hfe) (by intro h; simp at h)]
+      rw [run1_factor fx f rest _ hH1 (by simpa using hfe) (by simpa using hj) (by intro h; simp at h)]
       simp only [S1.after, Factor.nfeat, Factor.nbin, Factor.hasParen, hl]
       congr 1
       simp only [Factor.clen, Factor.pend, Factor.body]
       rcases f.pend_cases with hp | hp <;> simp [hp, cNOT_eq]
-  | .paren o1 e o2, rest, σ, hH, hfe, hln => by
-    simp only [Factor.NoNotParenNot] at hH
+  | .paren o1 e o2, rest, σ, hH, hfe, hj, hln => by
+    have hH1 : fx.f13 = false → e.NoNotParenNot := fun h => by have := hH h; simpa only [Factor.NoNotParenNot] using this
     simp only [Factor.toks1, List.cons_append, List.append_assoc, List.nil_append, run1]
-    have hpre : ({ σ with j := σ.j + 1, cv := true } : S1).lastNot = true →
-        1 ≤ ({ σ with j := σ.j + 1, cv := true } : S1).exprSize ∧ e.parenNot = false := by
+    have hpre : ({ σ with j := σ.j + 1, cv := true, lastNot := if fx.f13 then false else σ.lastNot } : S1).lastNot = true →
+        1 ≤ ({ σ with j := σ.j + 1, cv := true, lastNot := if fx.f13 then false else σ.lastNot } : S1).exprSize ∧
+          (fx.f13 = false → e.parenNot = false) := by
       intro h
-      have := hln h
-      exact ⟨this.1, Expr.parenNot_of_leftNot e (by simpa [Factor.parenNot] using this.2)⟩
-    rw [run1_expr e (.rp :: rest) _ hH (by simpa using hfe) hpre]
-    simp only [run1, S1.after, Factor.nfeat, Factor.nbin, Factor.hasParen]
+      cases hf : fx.f13 with
+      | true => simp [hf] at h
+      | false =>
+        simp only [hf, Bool.false_eq_true, if_false] at h
+        have := hln h
+        exact ⟨this.1, fun _ => Expr.parenNot_of_leftNot e (by simpa [Factor.parenNot] using this.2 hf)⟩
+    rw [run1_expr fx e (.rp :: rest) _ hH1 (by simpa using hfe) (by simp; omega) hpre]
+    rw [run1_rp fx rest _ (by simp [S1.after]; omega)]
+    simp only [S1.after, Factor.nfeat, Factor.nbin, Factor.hasParen]
     congr 1
     have hb : (Factor.paren o1 e o2).body.length = e.clen false := by
       rw [Expr.clen_false]; rfl
-    cases hl : σ.lastNot with
-    | false => simp [Factor.clen, Factor.pend, hb, cNOT_eq]
+    have hjj : σ.j + 1 - 1 = σ.j := by omega
+    cases hf : fx.f13 with
     | true =>
-      have hle : e.leftNot = false := by simpa [Factor.parenNot] using (hln hl).2
-      simp [Factor.clen, Factor.pend, hb, cNOT_eq, Expr.clen_true_of_leftNot e hle]
-theorem run1_term : ∀ (t : Term) (rest : List T1) (σ : S1), t.NoNotParenNot → σ.fExp = σ.fSize + 1 →
-    (σ.lastNot = true → 1 ≤ σ.exprSize ∧ t.parenNot = false) →
-    run1 (t.toks1 ++ rest) σ = run1 rest (σ.after t.nfeat t.nbin (t.clen σ.lastNot) t.hasParen)
-  | .one f, rest, σ, hH, hfe, hln => by
-    simp only [Term.NoNotParenNot] at hH
+      cases hl : σ.lastNot with
+      | false => simp [Factor.clen, Factor.pend, hb, cNOT_eq, hjj]
+      | true =>
+        have := (hln hl).1
+        simp [Factor.clen, Factor.pend, hb, cNOT_eq, hjj]; omega
+    | false =>
+      cases hl : σ.lastNot with
+      | false => simp [Factor.clen, Factor.pend, hb, cNOT_eq, hjj]
+      | true =>
+        have hle : e.leftNot = false := by simpa [Factor.parenNot] using (hln hl).2 hf
+        simp [Factor.clen, Factor.pend, hb, cNOT_eq, hjj, Expr.clen_true_of_leftNot e hle]
+theorem run1_term (fx : Fix) : ∀ (t : Term) (rest : List T1) (σ : S1), (fx.f13 = false → t.NoNotParenNot) →
+    σ.fExp = σ.fSize + 1 → 0 ≤ σ.j →
+    (σ.lastNot = true → 1 ≤ σ.exprSize ∧ (fx.f13 = false → t.parenNot = false)) →
+    run1 fx (t.toks1 ++ rest) σ = run1 fx rest (σ.after t.nfeat t.nbin (t.clen σ.lastNot) t.hasParen)
+  | .one f, rest, σ, hH, hfe, hj, hln => by
     simpa [Term.toks1, Term.nfeat, Term.nbin, Term.clen, Term.hasParen] using
-      run1_factor f rest σ hH hfe (by simpa [Term.parenNot] using hln)
-  | .and f s1 s2 t, rest, σ, hH, hfe, hln => by
-    simp only [Term.NoNotParenNot] at hH
+      run1_factor fx f rest σ (fun h => by simpa only [Term.NoNotParenNot] using hH h) hfe hj
+        (by simpa [Term.parenNot] using hln)
+  | .and f s1 s2 t, rest, σ, hH, hfe, hj, hln => by
+    have hH1 : fx.f13 = false → f.NoNotParenNot := fun h => by have := hH h; simp only [Term.NoNotParenNot] at this; exact this.1
+    have hH2 : fx.f13 = false → t.NoNotParenNot := fun h => by have := hH h; simp only [Term.NoNotParenNot] at this; exact this.2
     simp only [Term.toks1, List.append_assoc, List.cons_append]
-    rw [run1_factor f (.bin :: (t.toks1 ++ rest)) σ hH.1 hfe (by simpa [Term.parenNot] using hln)]
+    rw [run1_factor fx f (.bin :: (t.toks1 ++ rest)) σ hH1 hfe hj (by simpa [Term.parenNot] using hln)]
     have hfe' : (σ.after f.nfeat f.nbin (f.clen σ.lastNot) f.hasParen).fExp =
         (σ.after f.nfeat f.nbin (f.clen σ.lastNot) f.hasParen).fSize := by
       have := Factor.nfeat_eq f
       simp only [S1.after]; omega
     simp only [run1, hfe', ne_eq, not_true_eq_false, if_false]
-    rw [run1_term t rest _ hH.2 (by simp only [S1.after] at hfe' ⊢ <;> omega) (by intro h; simp at h)]
+    rw [run1_term fx t rest _ hH2 (by simp only [S1.after] at hfe' ⊢ <;> omega) (by simpa [S1.after] using hj)
+      (by intro h; simp at h)]
     simp only [S1.after, Term.nfeat, Term.nbin, Term.clen, Term.hasParen]
     have hnf := Factor.nfeat_eq f
     congr 1
     simp only [S1.mk.injEq, Bool.false_eq_true, if_false, Bool.or_assoc, and_true, true_and]
     omega
-theorem run1_expr : ∀ (e : Expr) (rest : List T1) (σ : S1), e.NoNotParenNot → σ.fExp = σ.fSize + 1 →
-    (σ.lastNot = true → 1 ≤ σ.exprSize ∧ e.parenNot = false) →
-    run1 (e.toks1 ++ rest) σ = run1 rest (σ.after e.nfeat e.nbin (e.clen σ.lastNot) e.hasParen)
-  | .one t, rest, σ, hH, hfe, hln => by
-    simp only [Expr.NoNotParenNot] at hH
+theorem run1_expr (fx : Fix) : ∀ (e : Expr) (rest : List T1) (σ : S1), (fx.f13 = false → e.NoNotParenNot) →
+    σ.fExp = σ.fSize + 1 → 0 ≤ σ.j →
+    (σ.lastNot = true → 1 ≤ σ.exprSize ∧ (fx.f13 = false → e.parenNot = false)) →
+    run1 fx (e.toks1 ++ rest) σ = run1 fx rest (σ.after e.nfeat e.nbin (e.clen σ.lastNot) e.hasParen)
+  | .one t, rest, σ, hH, hfe, hj, hln => by
     simpa [Expr.toks1, Expr.nfeat, Expr.nbin, Expr.clen, Expr.hasParen] using
-      run1_term t rest σ hH hfe (by simpa [Expr.parenNot] using hln)
-  | .or t s1 s2 e, rest, σ, hH, hfe, hln => by
-    simp only [Expr.NoNotParenNot] at hH
+      run1_term fx t rest σ (fun h => by simpa only [Expr.NoNotParenNot] using hH h) hfe hj
+        (by simpa [Expr.parenNot] using hln)
+  | .or t s1 s2 e, rest, σ, hH, hfe, hj, hln => by
+    have hH1 : fx.f13 = false → t.NoNotParenNot := fun h => by have := hH h; simp only [Expr.NoNotParenNot] at this; exact this.1
+    have hH2 : fx.f13 = false → e.NoNotParenNot := fun h => by have := hH h; simp only [Expr.NoNotParenNot] at this; exact this.2
     simp only [Expr.toks1, List.append_assoc, List.cons_append]
-    rw [run1_term t (.bin :: (e.toks1 ++ rest)) σ hH.1 hfe (by simpa [Expr.parenNot] using hln)]
+    rw [run1_term fx t (.bin :: (e.toks1 ++ rest)) σ hH1 hfe hj (by simpa [Expr.parenNot] using hln)]
     have hfe' : (σ.after t.nfeat t.nbin (t.clen σ.lastNot) t.hasParen).fExp =
         (σ.after t.nfeat t.nbin (t.clen σ.lastNot) t.hasParen).fSize := by
       have := Term.nfeat_eq t
       simp only [S1.after]; omega
     simp only [run1, hfe', ne_eq, not_true_eq_false, if_false]
-    rw [run1_expr e rest _ hH.2 (by simp only [S1.after] at hfe' ⊢ <;> omega) (by intro h; simp at h)]
+    rw [run1_expr fx e rest _ hH2 (by simp only [S1.after] at hfe' ⊢ <;> omega) (by simpa [S1.after] using hj)
+      (by intro h; simp at h)]
     simp only [S1.after, Expr.nfeat, Expr.nbin, Expr.clen, Expr.hasParen]
     have hnf := Term.nfeat_eq t
     congr 1
